@@ -129,6 +129,13 @@ func main() {
 		}
 		return
 	}
+	if *dump == "lifecycle" {
+		ctx := &Ctx{P: p, R: r, Rep: newReport("dump", p), Tier: *tier}
+		for _, l := range ctx.lifecycle().dump() {
+			fmt.Println(l)
+		}
+		return
+	}
 	if *dump != "" {
 		ctx := &Ctx{P: p, R: r, Rep: newReport("dump", p), Tier: *tier}
 		var f *Func
